@@ -135,7 +135,7 @@ def extract(repo="/repo", config="default", force=False, log=sys.stderr):
             return out
         # bound disk usage: drop fact dirs of other trees for the same repo path + config
         for d in os.listdir(SCRATCH):
-            if d.startswith("facts-") and d.endswith("-" + config) and os.path.join(SCRATCH, d) != out:
+            if d.startswith("facts-") and (d.endswith("-" + config) or ("-" + config + ".") in d) and os.path.join(SCRATCH, d) != out:
                 meta = os.path.join(SCRATCH, d, "META")
                 try:
                     same_repo = json.load(open(meta)).get("repo") == repo
@@ -147,6 +147,10 @@ def extract(repo="/repo", config="default", force=False, log=sys.stderr):
                         same_repo = False
                 if same_repo:
                     shutil.rmtree(os.path.join(SCRATCH, d), ignore_errors=True)
+        # build next to the final place and swap at the end: a check that is reading the cached facts of this very tree
+        # (e.g. a quick run while a thorough run re-extracts) keeps a complete directory until the last moment
+        final = out
+        out = "%s.tmp-%d" % (final, os.getpid())
         shutil.rmtree(out, ignore_errors=True)
         os.makedirs(out)
         with open(os.path.join(out, "META"), "w") as f:
@@ -182,11 +186,32 @@ def extract(repo="/repo", config="default", force=False, log=sys.stderr):
             raise ExtractError("driver did not (re)write fact files: %s" % missing)
         with open(os.path.join(out, "META"), "w") as f:
             json.dump({"repo": repo, "tree_hash": th, "config": config, "complete": True, "wall_s": time.time() - t0}, f)
+        if os.path.isdir(final):
+            old = "%s.old-%d" % (final, os.getpid())
+            os.rename(final, old)
+            os.rename(out, final)
+            shutil.rmtree(old, ignore_errors=True)
+        else:
+            os.rename(out, final)
         print("[wxverif] extraction done in %.1fs" % (time.time() - t0), file=log)
-        return out
+        return final
     finally:
         fcntl.flock(lock, fcntl.LOCK_UN)
         lock.close()
+
+
+def load(repo="/repo", config="default", force=False, log=sys.stderr):
+    """extract + parse, robust against a concurrent re-extraction swapping the directory while it is being read"""
+    from .facts import Facts
+    last = None
+    for attempt in range(4):
+        d = extract(repo, config, force=(force and attempt == 0), log=log)
+        try:
+            return Facts(d)
+        except (FileNotFoundError, json.JSONDecodeError, NotADirectoryError) as e:
+            last = e
+            time.sleep(0.5 + attempt)
+    raise ExtractError("facts directory kept changing while it was being read: %r" % (last,))
 
 
 def _complete(out, expected, th):
